@@ -30,6 +30,9 @@ type ReplStats struct {
 	// front of it, and how many of those were followed by another command message in the same stream
 	DummyTail         atomic.Int64
 	DummyTailThenMore atomic.Int64
+	DummyAny          atomic.Int64 // command messages carrying a Raft-internal entry anywhere
+	DummyAlone        atomic.Int64 // ... as their only command
+	DummyFirst        atomic.Int64 // ... as their first of several commands
 }
 
 type countingStream struct {
@@ -51,6 +54,17 @@ func (c *countingStream) SendMsg(m any) error {
 				c.st.DummyTailThenMore.Add(1)
 			}
 			c.tail = false
+			for i, x := range cs {
+				if x.GetCommand().GetType() == pb.Command_DUMMY && x.GetLeaderIndex() > 2 {
+					c.st.DummyAny.Add(1)
+					if len(cs) == 1 {
+						c.st.DummyAlone.Add(1)
+					} else if i == 0 {
+						c.st.DummyFirst.Add(1)
+					}
+					break
+				}
+			}
 			if n := len(cs); n > 1 && cs[n-1].GetCommand().GetType() == pb.Command_DUMMY {
 				for _, x := range cs[:n-1] {
 					if x.GetCommand().GetType() != pb.Command_DUMMY {
